@@ -77,6 +77,14 @@ def main():
     ls = lines(t); ev = json.loads(ls[0]); ev["atoms"] = ev["atoms"][:-1]; ls[0] = json.dumps(ev)
     t2 = os.path.join(wd, "r-corrupt.trace"); open(t2, "w").write("\n".join(ls) + "\n")
     good &= expect("rpsl/one-prefix-removed-from-the-result", "RpslTrace", check_rpsl.TRACE_CFG, t2, "C17", "PrefixesMissing", independent=True)
+    # the protocol model (IrrdProto) is bound too: drop one recorded query and the drift counter must move
+    stats0, _ = validate_trace("RpslTrace", t, "C17", "selftest-rpsl-drift0", check_rpsl.TRACE_CFG, nchunks=1, independent=True)
+    ls = lines(t); ev = json.loads(ls[0]); k = next(i for i, q in enumerate(ev["qlog"]) if q["c"] == "6"); del ev["qlog"][k]; ls[0] = json.dumps(ev)
+    t3 = os.path.join(wd, "r-drift.trace"); open(t3, "w").write("\n".join(ls) + "\n")
+    stats1, _ = validate_trace("RpslTrace", t3, "C17", "selftest-rpsl-drift1", check_rpsl.TRACE_CFG, nchunks=1, independent=True)
+    ok = stats0.get("qchecked") == 1 and not stats0.get("drift") and stats1.get("drift") == 1
+    print(f"{'ok  ' if ok else 'FAIL'} rpsl/one-query-removed-from-the-log: expected MODEL-DRIFT 0 -> 1, got {stats0.get('drift')} -> {stats1.get('drift')}")
+    good &= ok
     print("SELFTEST", "ok" if good else "FAILED")
     sys.exit(0 if good else 2)
 
